@@ -4747,12 +4747,9 @@ fn announce_service_on_intf(
 /// - `foo (2).local.` becomes `foo (3).local.`
 /// - `foo (9)` becomes `foo (10)`
 fn name_change(original: &str) -> String {
-    let mut parts: Vec<_> = original.split('.').collect();
-    let Some(first_part) = parts.get_mut(0) else {
-        return format!("{original} (2)");
-    };
+    let (first_part, rest) = split_first_label(original);
 
-    let mut new_name = format!("{first_part} (2)");
+    let mut new_name = label_with_suffix(first_part, " (2)");
 
     // check if there is already has `(<num>)` suffix.
     if let Some(paren_pos) = first_part.rfind(" (") {
@@ -4766,15 +4763,45 @@ fn name_change(original: &str) -> String {
                 if let Ok(number) = first_part[num_start..absolute_end_pos].parse::<u32>() {
                     if let Some(next) = number.checked_add(1) {
                         let base_name = &first_part[..paren_pos];
-                        new_name = format!("{} ({})", base_name, next)
+                        new_name = label_with_suffix(base_name, &format!(" ({next})"))
                     }
                 }
             }
         }
     }
 
-    *first_part = &new_name;
-    parts.join(".")
+    format!("{new_name}{rest}")
+}
+
+/// Splits `name` at its first unescaped dot: the first label as written (RFC 6763 escapes
+/// kept), and the rest starting with that dot (empty if there is none).
+fn split_first_label(name: &str) -> (&str, &str) {
+    let bytes = name.as_bytes();
+    let mut i = 0;
+    while i < bytes.len() {
+        match bytes[i] {
+            b'\\' => i += 2, // skip the escaped character
+            b'.' => return (&name[..i], &name[i..]),
+            _ => i += 1,
+        }
+    }
+    (name, "")
+}
+
+/// Appends `suffix` to the label `base`, shortening `base` if needed so that the result
+/// still fits into a DNS label (63 bytes).
+fn label_with_suffix(base: &str, suffix: &str) -> String {
+    const MAX_LABEL_LEN: usize = 63;
+    let mut end = base.len().min(MAX_LABEL_LEN.saturating_sub(suffix.len()));
+    while !base.is_char_boundary(end) {
+        end -= 1;
+    }
+    let mut kept = &base[..end];
+    // do not cut an escape sequence in two
+    if end < base.len() && kept.bytes().rev().take_while(|b| *b == b'\\').count() % 2 == 1 {
+        kept = &kept[..kept.len() - 1];
+    }
+    format!("{kept}{suffix}")
 }
 
 /// Returns a new name based on the `original` to avoid conflicts.
@@ -4785,12 +4812,9 @@ fn name_change(original: &str) -> String {
 /// - `foo-2.local.` becomes `foo-3.local.`
 /// - `foo` becomes `foo-2`
 fn hostname_change(original: &str) -> String {
-    let mut parts: Vec<_> = original.split('.').collect();
-    let Some(first_part) = parts.get_mut(0) else {
-        return format!("{original}-2");
-    };
+    let (first_part, rest) = split_first_label(original);
 
-    let mut new_name = format!("{first_part}-2");
+    let mut new_name = label_with_suffix(first_part, "-2");
 
     // check if there is already a `-<num>` suffix
     if let Some(hyphen_pos) = first_part.rfind('-') {
@@ -4798,13 +4822,12 @@ fn hostname_change(original: &str) -> String {
         if let Ok(number) = first_part[hyphen_pos + 1..].parse::<u32>() {
             if let Some(next) = number.checked_add(1) {
                 let base_name = &first_part[..hyphen_pos];
-                new_name = format!("{}-{}", base_name, next);
+                new_name = label_with_suffix(base_name, &format!("-{next}"));
             }
         }
     }
 
-    *first_part = &new_name;
-    parts.join(".")
+    format!("{new_name}{rest}")
 }
 
 /// Check probes in a registry and returns: a probing packet to send out, and a list of probe names
